@@ -1425,7 +1425,7 @@ impl<'a, 'b> InternalDelphiLogicalLineParser<'a, 'b> {
                     if matches!(
                         parser.get_token_type::<-1>(),
                         Some(
-                            TT::Op(OK::Colon | OK::Dot)
+                            TT::Op(OK::Colon | OK::Dot | OK::Caret(CaretKind::Type))
                                 | TT::Keyword(
                                     KK::Function | KK::Procedure | KK::Constructor | KK::Destructor
                                 )
